@@ -9,6 +9,7 @@ pub mod c08;
 pub mod c10;
 pub mod c11;
 pub mod c12;
+pub mod c14;
 pub mod c15;
 pub mod c16;
 pub mod c19;
@@ -20,6 +21,7 @@ pub fn run(ctx: &Ctx) -> i32 {
         "C10" => c10::run(ctx),
         "C11" => c11::run(ctx),
         "C12" => c12::run(ctx),
+        "C14" => c14::run(ctx),
         "C15" => c15::run(ctx),
         "C16" => c16::run(ctx),
         "C19" => c19::run(ctx),
@@ -37,6 +39,7 @@ pub fn replay(prop: &'static str, path: &str) -> i32 {
         "C10" => Box::new(c10::replay),
         "C11" => Box::new(c11::replay),
         "C12" => Box::new(c12::replay),
+        "C14" => Box::new(c14::replay),
         "C15" => Box::new(c15::replay),
         "C16" => Box::new(c16::replay),
         "C19" => Box::new(c19::replay),
@@ -48,8 +51,11 @@ pub fn replay(prop: &'static str, path: &str) -> i32 {
     replay_report(prop, path, &*f)
 }
 
-pub fn child_main(_args: &[String]) -> i32 {
-    2
+pub fn child_main(args: &[String]) -> i32 {
+    match args.get(0).map(|s| s.as_str()) {
+        Some("parse") => c14::child(args),
+        _ => 2,
+    }
 }
 
 pub fn fail(signature: String, what: String, case: J, expected: J, actual: J, rank: u64) -> Failure {
